@@ -1,5 +1,7 @@
 """C18 - canconvert options have exactly their documented effect."""
+import collections
 import contextlib
+import fnmatch
 import io
 import json
 import logging
@@ -25,10 +27,23 @@ RULE = ("case 'conv' = (generated DBC matrix with unique frame names, signal nam
         "methods, thresholds below, at and above existing lengths; invocation through canmatrix.convert.convert or through the click "
         "command): the output DBC file re-read and reduced to names, ids, lengths, FD flag, senders, signals with position, length, "
         "30 % of the extended identifiers are numbers below 0x800. receivers and user attributes, and the ECU list closed under references. Non-trivial = distinct case with an option that "
-        "changes the matrix.")
-PARTIAL = ["merge, signals, compressFrame (C16), deleteObsoleteDefines (C11), signalNameFromAttrib and the ARXML/PDU-container rewrite are "
+        "changes the matrix.  Two further streams reach the options the model has no field for, by the converter call they are documented "
+        "to equal: (merge) a main file and one or two other files (frame names disjoint, some identifiers shared with the main file), "
+        "--merge file[:frame=A][:frame=B]...[,file2] with no, one or several frame selectors per file (repeated and unknown names among them), "
+        "alone, after --frames, or followed by one other option; judged as the selection of the main frames followed by the merged frames "
+        "out of the union of the files (copy.copy_frame one by one, the clause of --frames).  (signals) --signals with one to three names or "
+        "glob patterns (names that occur in several frames, overlapping patterns, unknown names), alone, with --frames or with a frame-level "
+        "option; the free signals of the output (the DBC pseudo frame) are observed as a last frame and must be every signal a pattern "
+        "selects, pattern by pattern and frame by frame, unchanged.")
+PARTIAL = ["compressFrame (C16), deleteObsoleteDefines (C11), signalNameFromAttrib and the ARXML/PDU-container rewrite are "
            "not modelled", "only DBC input and output files", "the selection options are specified by the model of copy.py (C12), not by "
-           "an independent clause"]
+           "an independent clause",
+           "merge: only whole files and frame= selectors, reduced to the --frames clause over the union of the files; ecu= selectors are not "
+           "generated (on the unchanged code --merge other.dbc:ecu=X removes every ECU of the main file that sends no frame, see "
+           "merge_ecu_selector_note in harness/props/c18.py); the ECU list of the main file holds referenced ECUs only in this stream",
+           "signals: the expected free signals (fnmatch selection, pattern by pattern, and the numbering the DBC writer gives to equal names within "
+           "one frame) are computed by the harness and handed to the Lean judge as a frame of the input; options that edit signals are not "
+           "paired with --signals (what they do to free signals is not documented)"]
 ASSUMPTIONS = ["unique frame names, signal names unique within a frame (the same name may occur in several frames); new names of renames and new identifiers of changeFrameId are not in use",
                "the DBC round trip of the output is lossless on the compared fields (C05)"]
 TRUSTED = ["click.testing.CliRunner", "DBC reader used to observe the output (C05)"]
@@ -99,6 +114,8 @@ def build(m):
 
 
 USER_ATTRS = {"FrInt", "FrStr", "SgInt", "SgStr"}
+# what the DBC format makes of signals without a frame (dbc.py dump/load): a frame of this name and identifier, no length, no sender
+PSEUDO = {"name": "VECTOR__INDEPENDENT_SIG_MSG", "id": 0x40000000, "ext": True, "size": 0, "fd": False, "tx": [], "sigs": [], "attrs": []}
 
 
 def abstract(db):
@@ -109,6 +126,10 @@ def abstract(db):
                        "sigs": [{"name": s.name, "start": int(s.get_startbit()), "size": int(s.size), "receivers": list(s.receivers),
                                  "attrs": sorted([k, str(v)] for k, v in s.attributes.items() if k in USER_ATTRS)} for s in f.signals],
                        "attrs": sorted([k, str(v)] for k, v in f.attributes.items() if k in USER_ATTRS)})
+    if db.signals:
+        # signals without a frame (--signals): the DBC reader takes them out of the pseudo frame again; observed as a last frame
+        frames.append(dict(PSEUDO, sigs=[{"name": s.name, "start": int(s.get_startbit()), "size": int(s.size), "receivers": list(s.receivers),
+                                          "attrs": sorted([k, str(v)] for k, v in s.attributes.items() if k in USER_ATTRS)} for s in db.signals]))
     ecus = [e.name for e in db.ecus]
     for f in frames:
         for e in f["tx"] + [r for s in f["sigs"] for r in s["receivers"]]:
@@ -183,6 +204,139 @@ OPTIONS = ["deleteEcu", "renameEcu", "deleteFrame", "renameFrame", "deleteSignal
            "deleteObsoleteEcus", "frames", "ecus"]
 
 
+# ---------------------------------------------------------------------------------------------------------------------
+# --merge and --signals: options the Lean model has no field for.  A case of these streams carries under "real" what the converter
+# is really called with (files, merge / signals argument, the other option); "m" and "o" are the converter call this is documented to
+# equal, in the shape the judge knows (reduce_real).  The driver ignores "real".
+# ---------------------------------------------------------------------------------------------------------------------
+# merge_ecu_selector_note: `--merge other.dbc:ecu=X` is copy.copy_ecu_with_frames(X, other, main) with direct_ecu_only=True, whose
+# clean-up (delete_indirect_ecus) runs over the *main* matrix: every ECU of the main file that sends no frame and is not X is removed
+# from the ECU list and from all receiver lists, and with two ecu= selectors the ECU selected first is removed by the second.  That is
+# a defect of the unchanged code ("Merges REAR_ECU out of second.dbc with source.dbc"); ecu= selectors are kept out of the stream.
+SAFE_WITH_SIGNALS = ["deleteFrame", "renameFrame", "setFrameFd", "unsetFrameFd", "skipLongDlc", "deleteFrameAttributes", "changeFrameId"]
+
+
+def frame_names(m):
+    return [f["name"] for f in m["frames"]]
+
+
+def union_of(main, others):
+    ecus = list(main["ecus"])
+    frames = list(main["frames"])
+    for om in others:
+        ecus += [e for e in om["ecus"] if e not in ecus]
+        frames += om["frames"]
+    return {"ecus": ecus, "frames": frames}
+
+
+def select_signals(m, pats):
+    """the documented effect of --signals=p1,p2: every signal a pattern selects, pattern by pattern and frame by frame (each one as
+    often as it is selected), unchanged; names as the DBC writer numbers equal names within one frame.  None: the numbering runs into
+    another name (the output file would be ambiguous, C05)"""
+    sel = [s for p in pats for f in m["frames"] for s in f["sigs"] if fnmatch.fnmatchcase(s["name"], p)]
+    totals = collections.Counter(s["name"] for s in sel)
+    seen = collections.Counter()
+    out = []
+    for s in sel:
+        name = s["name"]
+        if totals[name] > 1:
+            name += str(seen[s["name"]])
+        seen[s["name"]] += 1
+        out.append(dict(s, name=name))
+    if len({s["name"] for s in out}) != len(out):
+        return None
+    return out
+
+
+def reduce_real(real):
+    """(m, o) in the judge's shape, or None"""
+    o = dict(real["o"])
+    if real["kind"] == "merge":
+        m = union_of(real["main"], real["others"])
+        names = list(o["frames"]) if "frames" in o else frame_names(real["main"])
+        for k, sel in real["merge"]:
+            names += frame_names(real["others"][k]) if sel is None else list(sel)
+        o["frames"] = names
+        return m, o
+    free = select_signals(real["main"], real["signals"])
+    if free is None:
+        return None
+    m = dict(real["main"], frames=real["main"]["frames"] + ([dict(PSEUDO, sigs=free)] if free else []))
+    o["frames"] = list(o.get("frames", [])) + ([PSEUDO["name"]] if free else [])
+    return m, o
+
+
+def make_case(real, cli):
+    mo = reduce_real(real)
+    if mo is None:
+        return None
+    return {"op": "conv", "c": {"m": mo[0], "o": mo[1], "cli": cli, "real": real}}
+
+
+def gen_merge(rng):
+    main = gen_matrix(rng)
+    used = {e for f in main["frames"] for e in f["tx"] + [r for s in f["sigs"] for r in s["receivers"]]}
+    main["ecus"] = [e for e in main["ecus"] if e in used]
+    others = []
+    for j in range(1 if rng.random() < 0.7 else 2):
+        om = gen_matrix(rng)
+        for k, f in enumerate(om["frames"]):
+            f["name"] = f["name"][:-len(str(k))] + str(k + 10 * (j + 1))          # frame names differ between the files
+            if rng.random() < 0.15:                                                # an identifier the main file uses too
+                g = rng.choice(main["frames"])
+                if all((h["id"], h["ext"]) != (g["id"], g["ext"]) for h in om["frames"]):
+                    f["id"], f["ext"] = g["id"], g["ext"]
+        others.append(om)
+    merge = []
+    for k, om in enumerate(others):
+        r = rng.random()
+        if r < 0.25:
+            merge.append([k, None])
+        else:
+            names = frame_names(om)
+            n = rng.choice([1, 2, 2, 3, 3, 4])
+            sel = [rng.choice(names) for _ in range(n)] if rng.random() < 0.3 else rng.sample(names, min(n, len(names)))
+            if rng.random() < 0.08:
+                sel.insert(rng.randrange(len(sel) + 1), "Nope")
+            merge.append([k, sel])
+    o = {}
+    if rng.random() < 0.6:
+        name = rng.choice([x for x in OPTIONS if x != "ecus"])
+        o[name] = gen_option(rng, main if name == "frames" else union_of(main, others), name)
+    return {"kind": "merge", "main": main, "others": others, "merge": merge, "o": o}
+
+
+def gen_signals(rng):
+    while True:
+        main = gen_matrix(rng)
+        _, snames = names_of(main)
+        if snames:
+            break
+    several = sorted({n for n in snames if snames.count(n) > 1})
+    for _ in range(20):
+        pats = []
+        for _ in range(rng.choice([1, 1, 2, 2, 3])):
+            r = rng.random()
+            if r < 0.35 and several:
+                pats.append(rng.choice(several))
+            elif r < 0.6:
+                pats.append(rng.choice(snames))
+            else:
+                pats.append(rng.choice(["sig*", "S?eed*", "st*", "*1", "*", "s*", "Nope", "[sS]*0"]))
+        if select_signals(main, pats) is not None:
+            break
+    else:
+        pats = [rng.choice(snames)]
+    o = {}
+    r = rng.random()
+    if r < 0.4:
+        o["frames"] = gen_option(rng, main, "frames")
+    elif r < 0.6:
+        name = rng.choice(SAFE_WITH_SIGNALS)
+        o[name] = gen_option(rng, main, name)
+    return {"kind": "signals", "main": main, "signals": pats, "o": o}
+
+
 def gen(rng, tier, shard, nshards):
     total = {"quick": 4000, "thorough": 40000}[tier] // nshards + 1
     for _ in range(total):
@@ -193,6 +347,12 @@ def gen(rng, tier, shard, nshards):
         for name in rng.sample(OPTIONS, n):
             o[name] = gen_option(rng, m, name)
         yield {"op": "conv", "c": {"m": m, "o": o, "cli": rng.random() < 0.4}}
+    extra = {"quick": 400, "thorough": 4000}[tier] // nshards + 1
+    for make in (gen_merge, gen_signals):
+        for _ in range(extra):
+            case = make_case(make(rng), rng.random() < 0.4)
+            if case is not None:
+                yield case
 
 
 def cli_args(o):
@@ -227,11 +387,32 @@ def api_opts(o):
     return out
 
 
+def real_call(c, d):
+    """the matrix of the input file, the options the converter is really called with, and the files to be merged (written into d)"""
+    real = c.get("real")
+    if real is None:
+        return c["m"], c["o"], {}
+    extra = {}
+    if real["kind"] == "merge":
+        items = []
+        for k, sel in real["merge"]:
+            path = os.path.join(d, "other%d.dbc" % k)
+            if not os.path.exists(path):
+                with open(path, "wb") as f:
+                    canmatrix.formats.dump(build(real["others"][k]), f, "dbc")
+            items.append(path + "".join(":frame=" + n for n in (sel or [])))
+        extra["merge"] = ",".join(items)
+    else:
+        extra["signals"] = ",".join(real["signals"])
+    return real["main"], real["o"], extra
+
+
 def observe(case):
     c = case["c"]
-    db = build(c["m"])
     d = tempfile.mkdtemp(prefix="c18_")
     try:
+        m_in, o_in, extra = real_call(c, d)
+        db = build(m_in)
         src = os.path.join(d, "in.dbc")
         dst = os.path.join(d, "out.dbc")
         with open(src, "wb") as f:
@@ -242,13 +423,14 @@ def observe(case):
             try:
                 if c.get("cli"):
                     from click.testing import CliRunner
-                    res = CliRunner().invoke(canmatrix.cli.convert.cli_convert, ["-s"] + cli_args(c["o"]) + [src, dst])
+                    res = CliRunner().invoke(canmatrix.cli.convert.cli_convert,
+                                             ["-s"] + cli_args(o_in) + ["--%s=%s" % kv for kv in extra.items()] + [src, dst])
                     if res.exception is not None and not isinstance(res.exception, SystemExit):
                         raised = type(res.exception).__name__ + ": " + str(res.exception)[:120]
                     elif res.exit_code != 0:
                         raised = "exit %s" % res.exit_code
                 else:
-                    canmatrix.convert.convert(src, dst, **api_opts(c["o"]))
+                    canmatrix.convert.convert(src, dst, **dict(api_opts(o_in), **extra))
             except Exception as e:  # noqa
                 raised = type(e).__name__ + ": " + str(e)[:120]
             out = None
@@ -271,16 +453,33 @@ def canon_out(out):
 
 def features(case, impl):
     c = case["c"]
-    yield "options=%d" % len(c["o"])
+    real = c.get("real")
+    o = real["o"] if real else c["o"]
+    yield "options=%d" % (len(o) + (1 if real else 0))
     yield "via=%s" % ("cli" if c.get("cli") else "convert()")
-    for k in c["o"]:
+    for k in o:
         yield "opt:" + k
+    if real and real["kind"] == "merge":
+        yield "opt:merge"
+        yield "merge:files=%d" % len(real["merge"])
+        for k, sel in real["merge"]:
+            yield "merge:whole file" if sel is None else "merge:frame selectors=%d%s" % (len(sel), " (one twice)" if len(set(sel)) < len(sel) else "")
+        main_ids = {(f["id"], f["ext"]) for f in real["main"]["frames"]}
+        if any((f["id"], f["ext"]) in main_ids for om in real["others"] for f in om["frames"]):
+            yield "merge:identifier of the main file in another file"
+    if real and real["kind"] == "signals":
+        yield "opt:signals"
+        yield "signals:patterns=%d" % len(real["signals"])
+        free = [s["name"] for p in real["signals"] for f in real["main"]["frames"] for s in f["sigs"] if fnmatch.fnmatchcase(s["name"], p)]
+        yield "signals:selected=%s" % (len(free) if len(free) < 3 else "3+")
+        if len(set(free)) < len(free):
+            yield "signals:one name selected several times"
     if impl.get("raised"):
         yield "raised"
 
 
 def nontrivial(case, impl):
-    return bool(case["c"]["o"])
+    return bool(case["c"]["o"]) or bool(case["c"].get("real"))
 
 
 def classify(case, impl, spec):
@@ -291,8 +490,49 @@ def classify(case, impl, spec):
     return None
 
 
+def less_of(m):
+    """the matrix with one frame or one signal less"""
+    for i in range(len(m["frames"])):
+        if len(m["frames"]) > 1:
+            yield dict(m, frames=m["frames"][:i] + m["frames"][i + 1:])
+    for i, f in enumerate(m["frames"]):
+        for j in range(len(f["sigs"])):
+            f2 = dict(f, sigs=f["sigs"][:j] + f["sigs"][j + 1:])
+            yield dict(m, frames=m["frames"][:i] + [f2] + m["frames"][i + 1:])
+
+
+def shrink_real(real):
+    for k in real["o"]:
+        yield dict(real, o={a: b for a, b in real["o"].items() if a != k})
+    if real["kind"] == "merge":
+        for i, (k, sel) in enumerate(real["merge"]):
+            if len(real["merge"]) > 1:
+                yield dict(real, merge=real["merge"][:i] + real["merge"][i + 1:])
+            for j in range(len(sel or [])):
+                if len(sel) > 1:
+                    yield dict(real, merge=real["merge"][:i] + [[k, sel[:j] + sel[j + 1:]]] + real["merge"][i + 1:])
+        for k, om in enumerate(real["others"]):
+            for om2 in less_of(om):
+                yield dict(real, others=real["others"][:k] + [om2] + real["others"][k + 1:])
+    else:
+        for j in range(len(real["signals"])):
+            if len(real["signals"]) > 1:
+                yield dict(real, signals=real["signals"][:j] + real["signals"][j + 1:])
+    for m2 in less_of(real["main"]):
+        if real["kind"] == "merge":
+            used = {e for f in m2["frames"] for e in f["tx"] + [r for s in f["sigs"] for r in s["receivers"]]}
+            m2 = dict(m2, ecus=[e for e in m2["ecus"] if e in used])
+        yield dict(real, main=m2)
+
+
 def shrink_candidates(case):
     c = case["c"]
+    if c.get("real"):
+        for real in shrink_real(c["real"]):
+            cand = make_case(real, c.get("cli"))
+            if cand is not None:
+                yield cand
+        return
     m = c["m"]
     for k in list(c["o"]):
         if len(c["o"]) > 1:
@@ -310,4 +550,13 @@ def shrink_candidates(case):
 
 def recipe(case):
     c = case["c"]
+    real = c.get("real")
+    if real and real["kind"] == "merge":
+        arg = ",".join("other%d.dbc" % k + "".join(":frame=" + n for n in (sel or [])) for k, sel in real["merge"])
+        return ("canconvert " + " ".join(cli_args(real["o"]) + ["--merge=" + arg]) + " in.dbc out.dbc   (in.dbc = canmatrix.formats.dump("
+                "props.c18.build(case['c']['real']['main']), 'dbc'), other<k>.dbc likewise from case['c']['real']['others'][k]; expected: "
+                "canconvert " + " ".join(cli_args(c["o"])) + " on the file holding the frames of all of them)")
+    if real:
+        return ("canconvert " + " ".join(cli_args(real["o"]) + ["--signals=" + ",".join(real["signals"])]) + " in.dbc out.dbc   (in.dbc = "
+                "canmatrix.formats.dump(props.c18.build(case['c']['real']['main']), 'dbc'); expected free signals: the last frame of case['c']['m'])")
     return "canconvert " + " ".join(cli_args(c["o"])) + " in.dbc out.dbc   (in.dbc = canmatrix.formats.dump(props.c18.build(case['c']['m']), 'dbc'))"
